@@ -235,8 +235,9 @@ example :
 
 `files_present_partial` rests on `Faithful`: the last thing the service saw of every name is that name's final state.  A queue
 overflow is exactly where the kernel stops providing that - events are dropped.  The pinned tree ignored `IN_Q_OVERFLOW`
-(`overflow_loses_a_delete_unfixed`: a genuine defect, repaired by the `fix:` commit recorded in known_findings.txt); the
-repaired service re-scans, and `overflow_resync_restores_faithfulness` shows that the re-scan alone - whatever was lost before
+(`overflow_loses_a_delete_unfixed`: a genuine defect, repaired by the `fix:` commits recorded in known_findings.txt); the
+repaired service treats the marker like the loss of its directory - new watch, full re-scan on the next tick (`Step.evSelf`,
+`overflow_then_tick_converges`) -, and `overflow_resync_restores_faithfulness` shows that the re-scan alone - whatever was lost before
 it - re-establishes `Faithful` for the directory as it is at that moment, so that `files_present_partial` applies again once
 the file system is quiet. -/
 
@@ -339,6 +340,21 @@ theorem overflow_loses_a_delete_unfixed :
     · simp [lastObs, Obs.name, Obs.load] at h1
     · simp [lastObs, Obs.name] at h1
   · decide
+
+/-- **With the repair the same history converges**: the overflow marker makes the watcher drop its watch and raise the flag
+(`Step.evSelf`), the next tick arms a new watch and re-scans (`resyncObs`): `c`, whose deletion was lost, is removed; `a`,
+rewritten unseen, is reloaded - also when the directory itself is gone at that moment. -/
+theorem overflow_then_tick_converges :
+    (match run Fixes.all (St.empty : St Nat)
+        ([.evAdd "c" (.unit 3), .evAdd "a" (.unit 1), .main none, .main none, .main none, .main none, .evSelf] ++
+          List.replicate 6 (.main (some [("a", .unit 11)]))) with
+     | .ok s => s.active == [("a", 11)] && !s.deleted
+     | .fatal => false) = true ∧
+    (match run Fixes.all (St.empty : St Nat)
+        ([.evAdd "c" (.unit 3), .main none, .main none, .main none, .evSelf] ++ List.replicate 5 (.main none)) with
+     | .ok s => s.active == [] && s.deleted
+     | .fatal => false) = true := by
+  constructor <;> decide
 
 /-- non-vacuity of `overflow_resync_restores_faithfulness`: `c` was loaded and its deletion lost, `a` was rewritten unseen; the
 re-scan of a directory holding `a` (new content) and a new `b` makes the observations faithful -/
